@@ -7,7 +7,7 @@ T = {
  ("C01","b"): (AS,"C01, C06","C01:validated_replay_seq:quiescence:TaskEmitters ; C06:order_or_identity:TaskTwoEmitters","same mechanism as C06-2a (the task counter's lock released before the frame is published and logged), written independently for C01. C06 reported it as built; C01 MISSED it: its exploration had no task with several emitters. Added to C01: two (thorough: three) emitters of one task beside a thread append, all interleavings at the task's publish / buffer / counter hooks and the log writer's, <= 2 [3] preemptions (3 066 executions): the task stream must read 0..n-1 in the log's file order"),
  ("C02","a"): (AB,"C02","C02:restart_changed_log",""),
  ("C02","b"): (AS,"C02","C02:restart_changed_log:torn_tail","missed: needs a log that ends with a partial line (a write cut short) and then a reopen; every history of C02 left a newline-terminated log. Added as a probe at the end of every history: a partial line is appended to the log from outside, then restart + the read-only call set: every byte must stay where it is"),
- ("C04","a"): (AS,"C04","C04:pair_only:compaction_cut_points_v1:.comp.v1.jsonl+.jsonl:delete+truncate_to_0:tail=message:warm_fault","missed: needs TWO cache members lost at once UNDER A RUNNING authority (pairs of faults were applied at rest only, where the open-time recovery drops the family) on a thread that holds a checkpoint. Added: pairs {delete, empty}^2 over every pair of files under a warm authority, with attribution to the single faults, and four short histories with a checkpoint get the pair phases in the quick tier. On the unchanged tree the new phase found 26 pair-only wrong answers, all with an EMPTIED checkpoint sidecar: recorded as KF-C04-C1wp (same root cause as KF-C04-C1w)"),
+ ("C04","a"): (AS,"C04","C04:pair_only:compaction_cut_points_v1:.comp.v1.jsonl+.jsonl:delete+truncate_to_0:tail=message:warm_fault","missed: needs TWO cache members lost at once UNDER A RUNNING authority (pairs of faults were applied at rest only, where the open-time recovery drops the family) on a thread that holds a checkpoint. Added: pairs {delete, empty}^2 over every pair of files under a warm authority, with attribution to the single faults, and two short histories with a checkpoint get the pair phases in the quick tier. On the unchanged tree the new phase found 26 pair-only wrong answers, all with an EMPTIED checkpoint sidecar: recorded as KF-C04-C1wp (same root cause as KF-C04-C1w)"),
  ("C04","b"): (AS,"C04","C04:wrong_answer:compiled_context:none:none:tail=message:restarted_authority","missed: needs the 16 newest messages to occupy more than 8 MiB of the messages+runs sidecar; the 3 MiB macro messages had been dropped after fix d96b6cb. Added: a thread of 18 x 600 KiB messages (no-fault differential only: warm and restarted authority against the cache-less truth)"),
  ("C06","a"): (AS,"C06","C06:lost_frame:ThreadBesideAnother","missed: every thread-stream kind had ONE thread; the continuity channel is shared by all threads. Added: a subscriber of thread A while the producer appends to another, longer thread B (higher seqs) and then to A; all interleavings with one subscriber (2 380 executions)"),
  ("C06","b"): (AS,"C06","C06:order_or_identity:TaskLazyReader","missed: the subscriber polled its body until Pending right after the attach, so the history was always consumed before a live frame was pending (the harness said 'polling order cannot change what is received' - which is what this change falsifies). Added for session, task and thread streams: a client that reads NOTHING between the attach and the end of production, then drains: history non-empty and live frames pending at the first poll; all interleavings"),
